@@ -126,6 +126,7 @@ def check(ctx) -> None:
     ctx.rule("C03.operands", "ABSINT/stack: predicate callbacks receive (left, right) / (exception, type) / tested value", floor=15)
     ctx.rule("C03.registered", "MUST-CALL: every predicate visitor registers a predicate; visit_node falls through to the bool-based visitor", floor=15)
     ctx.rule("C03.goals", "both outcomes are goals; is_covered reads the distance map of its outcome; exception matching == issubclass incl. tuples", floor=8)
+    ctx.rule("C03.fresh", "ABSINT: after reset() the recording trace holds nothing recorded before; init_trace / store_import_trace start from the import trace only", floor=3)
     ctx.rule("C03.restore", "PAIR-FINALLY: temporarily_disable/enable restore the previous tracing state on every exit; callbacks compute under temporarily_disable", floor=5)
 
     try:
@@ -201,6 +202,7 @@ def check(ctx) -> None:
 
     _goals(ctx, repo)
     _restore(ctx, repo)
+    _fresh(ctx, repo)
 
 
 def _for_loop_true_is_body(ctx, repo, v):
@@ -342,3 +344,46 @@ def _restore(ctx, repo) -> None:
         w = [n for n in fn.body if isinstance(n, ast.With) and any("temporarily_disable" in norm(i.context_expr) for i in n.items)]
         outside = [s for s in fn.body if s not in w and not (isinstance(s, ast.Expr) and isinstance(s.value, ast.Constant))]
         ctx.check("C03.restore", fn, bool(w) and not outside, f"{cb} computes outside `with self.temporarily_disable()`: operators of the module under test that the distance computation calls are traced as if the module executed them", what=f"{cb} computes under temporarily_disable()", stmt=f"[{cb} disabled]")
+
+
+def _fresh(ctx, repo) -> None:
+    """Outcomes of an earlier load of the module must not be reported for the predicates of the current one."""
+    tmod = repo.module(TR)
+    cres = peval.repo_class_resolver(repo, only={"ExecutionTracer", "AbstractExecutionTracer"})
+    counter = [0]
+
+    def new_trace():
+        counter[0] += 1
+        t = peval.Obj(f"trace#{counter[0]}", fields={"merged": []})
+        t.methods["merge"] = lambda other: t.fields["merged"].extend([other.label, *other.fields.get("merged", [])])
+        return t
+
+    def tracer():
+        it = peval.Interp(resolver=peval.repo_resolver(repo), class_resolver=cres, externs={"ExecutionTrace": new_trace})
+        old_import = new_trace(); old_import.label = "OLD-IMPORT"
+        old_rec = new_trace(); old_rec.label = "OLD-RECORDING"
+        obj = it.instantiate("ExecutionTracer", cres("ExecutionTracer", tmod), [], {"_import_trace": old_import, "_thread_local_state": peval.Obj("tls", fields={"trace": old_rec, "enabled": True})}, init=False)
+        return obj
+
+    for meth, law in (("reset", "fresh"), ("init_trace", "import-only"), ("store_import_trace", "promote")):
+        fn = repo.func(TR, f"ExecutionTracer.{meth}")
+        ctx.analysed(fn)
+        tag = f"[{meth}]"
+        try:
+            obj = tracer()
+            obj.methods[meth]()
+            rec = obj.fields["_thread_local_state"].fields["trace"]
+            imp = obj.fields["_import_trace"]
+            if law == "fresh":
+                ok = rec.label not in ("OLD-IMPORT", "OLD-RECORDING") and not any(x.startswith("OLD") for x in rec.fields["merged"]) and imp.label not in ("OLD-IMPORT", "OLD-RECORDING")
+                why = f"after reset() the recording trace is {rec.label} and has merged {rec.fields['merged']}; the import trace is {imp.label}: outcomes recorded before the reset (e.g. by an earlier load of the module, whose predicate ids are reused) are reported for the new predicates"
+            elif law == "import-only":
+                ok = rec.label != "OLD-RECORDING" and rec.fields["merged"][:1] == ["OLD-IMPORT"] and "OLD-RECORDING" not in rec.fields["merged"]
+                why = f"after init_trace() the recording trace is {rec.label} and has merged {rec.fields['merged']} (expected: a new trace that merged the import trace only)"
+            else:
+                ok = imp.label == "OLD-RECORDING" and rec.label not in ("OLD-RECORDING",) and rec.fields["merged"][:1] == ["OLD-RECORDING"]
+                why = f"after store_import_trace() the import trace is {imp.label} and the recording trace {rec.label} has merged {rec.fields['merged']} (expected: import trace = what was recorded, new recording trace starts from it)"
+        except (peval.Undecided, peval.Raises) as exc:
+            ctx.undecide("C03.fresh", fn, f"{tag}: {exc}")
+            continue
+        ctx.check("C03.fresh", fn, ok, f"{tag}: {why}", what=f"{tag}: {law}", stmt=tag)
